@@ -69,3 +69,10 @@ func VerifConnInfo(obj interface{}) (net, transport gopacket.Flow, s Stream, clo
 	c := obj.(*connection)
 	return c.key[0], c.key[1], c.stream, c.closed
 }
+
+// VerifRebind makes an assembler whose connections are all closed work on
+// another pool, so that the harness can reuse its page cache (2 MB) across cases.
+func (a *Assembler) VerifRebind(p *StreamPool) {
+	a.connPool = p
+	a.ret = a.ret[:0]
+}
